@@ -6,7 +6,9 @@ package vfe2e
 import (
 	"bytes"
 	"fmt"
+	"io"
 	"net"
+	"net/http"
 	"os"
 	"os/exec"
 	"path/filepath"
@@ -291,4 +293,31 @@ func (p *Proxy) Races() []string {
 		out = append(out, s[:j+1])
 		s = s[j+1:]
 	}
+}
+
+// ProcStats reads go_goroutines and process_open_fds from the proxy's own metrics endpoint (addr = host:port of
+// metrics.addr). ok is false when the endpoint could not be read.
+func ProcStats(addr string) (goroutines, fds int, ok bool) {
+	c := &http.Client{Timeout: 2 * time.Second}
+	resp, err := c.Get("http://" + addr + "/metrics")
+	if err != nil {
+		return 0, 0, false
+	}
+	defer resp.Body.Close()
+	b, err := io.ReadAll(resp.Body)
+	if err != nil {
+		return 0, 0, false
+	}
+	for _, line := range strings.Split(string(b), "\n") {
+		var v float64
+		if strings.HasPrefix(line, "go_goroutines ") {
+			fmt.Sscanf(line[len("go_goroutines "):], "%g", &v)
+			goroutines = int(v)
+		}
+		if strings.HasPrefix(line, "process_open_fds ") {
+			fmt.Sscanf(line[len("process_open_fds "):], "%g", &v)
+			fds = int(v)
+		}
+	}
+	return goroutines, fds, goroutines > 0
 }
